@@ -277,6 +277,12 @@ FreshPt == 9
 
 NonConstLabels == {l \in L : polys[l].cls \notin {"zero", "const"}}
 ContribLabels == {l \in L : Contributing(polys[l])}
+\* Bound to the transcript by more than a handful of bits.  A linear-code opening of the ZERO polynomial
+\* (all-zero matrix: v = 0, v_wf = 0, identical columns) depends on the sponge only through the opened
+\* column positions, and its codeword has 4 columns: with probability 4^-4 a proof made on another
+\* transcript state is literally the honest proof.  Plans that demand rejection of a transplanted proof
+\* need a polynomial outside this corner.
+StrongLabels == {l \in ContribLabels : ~(LinCode(S) /\ polys[l].cls = "zero")}
 
 ValueMove(key, pat) == [M("value") EXCEPT !.l = key[1], !.pt = key[2], !.pat = pat]
 
@@ -299,7 +305,10 @@ Components ==
     [] S = "ipa" -> {"replace:l0", "replace:r_last", "replace:final_comm_key", "replace:c"}
                     \cup (IF \E l \in L : polys[l].hid # NONE THEN {"replace:hiding_comm", "replace:rand"} ELSE {})
     [] S = "hyrax" -> {"replace:com_eval", "replace:com_d", "replace:com_b", "replace:z0", "replace:z_d", "replace:z_b"}
-    [] OTHER -> {"replace:v0", "replace:col0", "replace:path0"} \cup (IF keys.wf THEN {"replace:wf0"} ELSE {})
+    \* first and last element of every list, and Merkle digests at a position whose leaf index occurred before
+    [] OTHER -> {"replace:v0", "replace:col0", "replace:path0", "replace:v_last", "replace:col_last",
+                 "sibling:path_last", "sibling:path_repeat", "authpath:path_repeat"}
+                \cup (IF keys.wf THEN {"replace:wf0", "replace:wf_last"} ELSE {})
 ForgeKinds == {"forge_columns", "forge_stretch", "forge_nocolumns"}
 Shapes ==
   CASE S = "ipa" -> {<<"rounds", 1>>, <<"rounds", -1>>, <<"rounds_unequal", 0>>, <<"drop_hiding_comm", 0>>}
@@ -387,7 +396,7 @@ PlansC05(st) ==
   \* proof lists permuted / duplicated / truncated / extended
   \cup {Plan("list", "not_accept", <<M(kd)>>) :
           kd \in {"list_empty", "list_trunc", "list_extend"} \cup
-                 (IF Cardinality(PLs(st.qs)) >= 2 /\ ContribLabels # {} THEN {"list_swap", "list_dup"} ELSE {})}
+                 (IF Cardinality(PLs(st.qs)) >= 2 /\ StrongLabels # {} THEN {"list_swap", "list_dup"} ELSE {})}
   \cup {Plan("honest", "accept", <<>>)}
   \* errors weighted with the opening challenges (which depend on the sponge state only, so the party that
   \* transports the statement can compute them): xi_a * e_a + xi_b * e_b = 0 for claims of two DIFFERENT
@@ -443,7 +452,7 @@ PlansC10(st) ==
 
 PlansC11 ==
   {Plan("honest", "accept", <<>>)}
-  \cup (IF ContribLabels # {} THEN {Plan("perturb", "not_accept", <<[M("sponge_perturb") EXCEPT !.op = o]>>) : o \in 1..Len(ops)} ELSE {})
+  \cup (IF StrongLabels # {} THEN {Plan("perturb", "not_accept", <<[M("sponge_perturb") EXCEPT !.op = o]>>) : o \in 1..Len(ops)} ELSE {})
   \cup {Plan("swap_ops", "not_accept", <<[M("swap_ops") EXCEPT !.op = ij[1], !.k = ij[2]]>>) :
           ij \in {x \in (1..Len(ops)) \X (1..Len(ops)) :
                     x[2] > x[1] /\ ops[x[2]].kind = ops[x[1]].kind /\ ops[x[2]].kind # "lc"
